@@ -41,6 +41,13 @@ CATALOGUE = {
     "c-be-batch-on": (["C06", "C14"], [("lib/c/bitproto.c", "        // to the per-element loop (each element is staged endian-neutrally in\n        // BpEndecodeBaseType).\n        0\n",
                                         "        // to the per-element loop (each element is staged endian-neutrally in\n        // BpEndecodeBaseType).\n        (element_nbits == 8 || element_nbits == 16 || element_nbits == 32 || element_nbits == 64) && (flag >= 2 && flag <= 5)\n")],
                       "array batch path enabled on big-endian"),
+    "c-be-prefix-direct-copy": (["C06"], [("lib/c/bitproto.c", "    uint16_t data = (uint16_t)(descriptor->cap);\n    BpEndecodeBaseType(16, ctx, (void *)&data);",
+                                            "    uint16_t data = (uint16_t)(descriptor->cap);\n    BpCopyBufferBits(16, ctx->s, (unsigned char *)&data, ctx->i, 0);\n    ctx->i += 16;")],
+                                "array capacity prefix copied from native storage without the endian-neutral staging: right on x86 (and under the "
+                                "storage-layout emulation, which cannot judge prefixes), byte-swapped on a big-endian host - only the emulated host sees it"),
+    "c-be-sign-byte-test": (["C06"], [("lib/c/bitproto.c", "            if ((*(uint16_t *)data) & ((uint16_t)1 << (nbits - 1))) {",
+                                        "            if (((unsigned char *)data)[(nbits - 1) >> 3] & (1 << ((nbits - 1) & 7))) {")],
+                            "sign bit of int9..15 tested through a byte pointer (little-endian layout assumed): only wrong on a big-endian host"),
     "opt-be-decoder-byteindex": (["C06"], [("compiler/bitproto/renderer/impls/c/formatter.py",
                                             "        if self._op_mode_big_endian:\n            return self._format_op_mode_decoder_item_be(",
                                             "        if self._op_mode_big_endian and False:\n            return self._format_op_mode_decoder_item_be(")],
